@@ -1465,6 +1465,13 @@ class C16Oracle(Oracle):
         return {"op": "ro", "name": name, "subset": subset, "t": rnd.randint(-1, self.w.frames),
                 "tid": rnd.randint(0, 12)}
 
+    @staticmethod
+    def _id_counters(tr):
+        ann = getattr(tr, "track_annotator", None)
+        if ann is None:
+            return None
+        return (int(ann.max_tracklet_id), int(ann.max_lineage_id))
+
     def apply_extra(self, op, out):
         import shutil
         import tempfile
@@ -1479,11 +1486,17 @@ class C16Oracle(Oracle):
             out.info["skipped"] = True
             return
         before = C.full_snapshot(tr)
+        counters0 = self._id_counters(tr)
         tmp = Path(tempfile.mkdtemp(prefix="verif-c16-"))
         ok, r = _safe(lambda: self._run(name, op, tmp))
         shutil.rmtree(tmp, ignore_errors=True)
         after = C.full_snapshot(tr)
         d = C.full_diff(before, after, strict_lookups=True)  # a query must not even add an empty entry
+        counters1 = self._id_counters(tr)
+        if d is None and counters0 != counters1:
+            # the id counters belong to the track lookups: what the tracks hand out as the
+            # next free track / lineage id must not depend on whether somebody asked before
+            d = f"track lookup id counters (max track id, max lineage id): {counters0} -> {counters1}"
         scale_tag = "scale=None" if before["scale"] is None else "scale=given"
         self.col.event(f"ro:{name}:{'ok' if ok else 'raised'}")
         if not ok:
